@@ -122,6 +122,84 @@ macro_rules! declare_storage_n {
                     self.destroyed.clear();
                 }
 
+                /// Verification hook: overwrites the raw bookkeeping fields of this storage.
+                #[cfg(gecs_verif)]
+                #[doc(hidden)]
+                pub unsafe fn __verif_set_raw(&mut self, version: u32, len: usize, free_head: u32) {
+                    self.version = ArchetypeVersion::__verif_new(version);
+                    self.len = len;
+                    self.free_head = SlotIndex::__verif_raw(free_head);
+                }
+
+                /// Verification hook: overwrites the recorded capacity (allocation untouched).
+                #[cfg(gecs_verif)]
+                #[doc(hidden)]
+                pub unsafe fn __verif_set_capacity(&mut self, capacity: usize) {
+                    self.capacity = capacity;
+                }
+
+                /// Verification hook: overwrites one sparse slot with raw (index, version) values.
+                #[cfg(gecs_verif)]
+                #[doc(hidden)]
+                pub unsafe fn __verif_set_slot(&mut self, at: usize, index: u32, version: u32) {
+                    let capacity = self.capacity;
+                    unsafe {
+                        self.slots.raw_data(capacity)[at].write(Slot::__verif_raw(index, version));
+                    }
+                }
+
+                /// Verification hook: writes one dense cell (entity handle and components).
+                #[cfg(gecs_verif)]
+                #[doc(hidden)]
+                pub unsafe fn __verif_set_cell<D: $components<#(T~I,)*>>(
+                    &mut self,
+                    at: usize,
+                    slot_index: u32,
+                    version: u32,
+                    data: D,
+                ) {
+                    let entity = Entity::new(
+                        TrimmedIndex::new_u32(slot_index).unwrap(),
+                        crate::version::SlotVersion::new(
+                            std::num::NonZeroU32::new(version).unwrap(),
+                        ),
+                    );
+                    let data = data.raw_get();
+                    unsafe {
+                        self.entities.write(at, entity);
+                        #(self.d~I.get_mut().write(at, data.I);)*
+                    }
+                }
+
+                /// Verification hook: reads (version, len, capacity, free_head) as raw values.
+                #[cfg(gecs_verif)]
+                #[doc(hidden)]
+                pub fn __verif_get_raw(&self) -> (u32, usize, usize, u32) {
+                    (
+                        self.version.get().get(),
+                        self.len,
+                        self.capacity,
+                        self.free_head.__verif_get(),
+                    )
+                }
+
+                /// Verification hook: reads one sparse slot as raw (index, version) values.
+                #[cfg(gecs_verif)]
+                #[doc(hidden)]
+                pub fn __verif_get_slot(&self, at: usize) -> (u32, u32) {
+                    assert!(at < self.capacity);
+                    let slot = unsafe { self.slots.slice(self.capacity)[at] };
+                    (slot.index().__verif_get(), slot.version().get().get())
+                }
+
+                /// Verification hook: reads the raw (key, version) of one dense entity cell.
+                #[cfg(gecs_verif)]
+                #[doc(hidden)]
+                pub fn __verif_get_cell_entity(&self, at: usize) -> (u32, u32) {
+                    assert!(at < self.capacity);
+                    unsafe { (*self.entities.0.as_ptr().add(at)).assume_init_ref().into_any().raw() }
+                }
+
                 /// Adds a new entity with the given components to this storage.
                 /// Returns a typed entity handle pointing to the added element.
                 ///
